@@ -20,10 +20,9 @@ when the centre of the box starts exactly on a grid line or a grid point, moves 
   before a step, then every in-field cell of the shifted block is in the trace after it (the new row and the new column are
   tested along the whole current range).
 
-Not proved (`walk_covers_full`): that the block `range_i × range_j` around the centre's cell contains the footprint of the
-box at every time the centre is in that cell (needs the rounding-free relation between `quantize_floor/ceil` of the box
-corners and of the centre), and hence the end-to-end statement "every cell the box enters before `max_time_of_impact` is in
-the trace".  That statement is checked on every generated case by the exact oracle of `hfwalk3`.
+`walk_covers_full` (the end-to-end statement "every cell the box enters before `max_time_of_impact` is in the trace") is stated here and
+proved in `Theorems6.lean` (`walk_covers_full_generic`, every velocity); it is also checked on every generated case by the exact
+oracle of `hfwalk3`.
 -/
 namespace C06
 open Model Model.HW
